@@ -435,6 +435,7 @@ func c08(c *Ctx) {
 		qbase = dir // thousands of tiny fsyncs: tmpfs
 	}
 	c08QueueTie(c, qbase)
+	c08RemnantFamily(c, qbase)
 
 	// ---------- (b) direct oracles on the real store ----------
 	c08Oracles(c, base)
